@@ -50,4 +50,9 @@ VARIANTS += [
     # the defect repaired by 0650c92: the controller scaled the nominal step size instead of the (clipped) trial
     V("controller-scales-nominal-step", BS, "prev_step_size=next_t - curr_t,", "prev_step_size=step_size,", rule="R14.3"),
     V("twin-controller-trial-length-temporary", BS, "                    with torch.no_grad():\n                        error_estimate", "                    tried = next_t - curr_t\n                    with torch.no_grad():\n                        error_estimate", expect="silent"),
+    # the defect repaired in /repo: the initial step size is not clamped to dt_min
+    V("first-trial-unclamped", CORE + "base_solver.py", "        if self.adaptive and step_size < self.dt_min:\n", "        if False and step_size < self.dt_min:\n", rule="R14.7"),
+    V("first-trial-clamped-to-twice-dt-min", CORE + "base_solver.py", "            # The initial step size is a proposal like any later one: no trial step is shorter than `dt_min`.\n            step_size = self.dt_min\n", "            step_size = 2 * self.dt_min\n", rule="R14.7"),
+    V("twin-first-trial-max", CORE + "base_solver.py", "        if self.adaptive and step_size < self.dt_min:\n            # The initial step size is a proposal like any later one: no trial step is shorter than `dt_min`.\n            step_size = self.dt_min\n",
+      "        if self.adaptive:\n            step_size = max(step_size, self.dt_min)\n", expect="silent"),
 ]
